@@ -314,7 +314,7 @@ def programs(draw, q):
         prog["funcs"].append({"idx": i, "kind": draw(st.sampled_from(["func", "method", "classmethod"])),
                               "params": {"ps": [{"kind": "poskw", "default": None, "name": "p%dx0" % i}], "varargs": False, "varkw": False},
                               "anno": False, "flavour": flavour, "rebind": "no", "callee": None, "callee_args": [], "catch": False, "recurse": False,
-                              "exit": draw(st.sampled_from(["const", "cond"])) if flavour == "gen" else "cond",
+                              "exit": draw(st.sampled_from(["const", "cond", "condnone", "condnone"])) if flavour == "gen" else draw(st.sampled_from(["cond", "condnone"])),
                               "yields": ["@cond"] if flavour == "gen" else [], "awaits": 0})
         a, b = draw(st.sampled_from([(True, False), (1, 0), ("a", "")]))
         extra = [["call", i, [["lit", a]]], ["next", 0], ["next", 0], ["call", i, [["lit", b]]], ["next", 0], ["next", 0]]
